@@ -263,12 +263,18 @@ fn run_conc(args: &Args) -> ! {
     let ts_dev: Vec<usize> = if thorough { vec![2, 4, 8] } else { vec![2, 4] };
     // (cols, n, blowup): LDE domains on both sides of 1024 and commitments beyond 128 * T rows
     let cases: Vec<(usize, usize, usize)> = if thorough { vec![(3, 256, 2), (3, 256, 4), (9, 512, 2), (5, 1024, 2), (17, 1024, 4), (3, 2048, 2)] } else { vec![(3, 256, 4), (9, 512, 2), (5, 1024, 2)] };
-    let outs = mck::par_map(cases.len() * 2, |j| {
-        let (cols, n, b) = cases[j / 2];
+    let outs = mck::par_map(cases.len() * 3, |j| {
+        let (cols, n, b) = cases[j / 3];
         let mut s = S { evals: 0, nontrivial: 0, viol: vec![] };
         let st = rayon::explore(&ts_all, &ts_dev, 0, |tag| {
             let tag = format!(" [{tag}]");
-            if j % 2 == 0 {
+            if j % 3 == 2 {
+                // cubic columns: segments start in the middle of an extension element (first case only:
+                // 3 cubic columns = 9 base columns over segment width 8, LDE domain 1024)
+                if j / 3 == 0 {
+                    lde_case::<CubeExtension<B64>, 8>("f64^3", cols, n, b, &tag, &mut s);
+                }
+            } else if j % 3 == 0 {
                 lde_case::<B64, 8>("f64", cols, n, b, &tag, &mut s);
                 commit_case::<Blake3_256<B64>, B64>("Blake3_256/f64", cols, (n * b).trailing_zeros(), 1, 1, &tag, &mut s);
             } else {
@@ -285,8 +291,8 @@ fn run_conc(args: &Args) -> ! {
         sched += st.schedules;
         nontrivial += st.nontrivial;
         tasks += st.task_runs;
-        if j % 2 == 0 {
-            regions.push(json!({"case_(cols,n,blowup)": cases[j / 2], "regions_(threads,total,multi)": st.regions}));
+        if j % 3 == 0 {
+            regions.push(json!({"case_(cols,n,blowup)": cases[j / 3], "regions_(threads,total,multi)": st.regions}));
         }
         report.violations(s.viol);
     }
